@@ -145,3 +145,18 @@ def declare(spec):
 
     F(spec, "Distribution", simulation="val")
     F(spec, "StateDigraph", statedigraph="val")
+
+    # attributes created by an initialise() step that Simulation.__init__ / Node.__init__ always runs
+    # (not by the class's own __init__); their presence afterwards is assumed (I-DEF), and listed
+    for cls, names in {
+        "ArrivalNode": ["next_event_date", "next_node", "next_class"],
+        "Schedule": ["c", "next_shift_change_date", "next_c", "schedule_generator"],
+        "Slotted": ["next_slot_date", "slot_size", "schedule_generator"],
+        "StateTracker": ["simulation", "state", "history"],
+        "MatrixBlocking": ["increment"],
+        "NetworkRouting": ["simulation"],
+        "NodeRouting": ["simulation", "node"],
+        "Distribution": ["simulation"],
+    }.items():
+        for n in names:
+            spec.lazy_ok.add((cls, n))
